@@ -12,6 +12,9 @@ fn step_alphabet() -> Vec<Value> {
         json!(["withIssuer", "iss-i"]), json!(["withIssuer", "iss-j"]), json!(["withSubject", "sub-s"]), json!(["withSubject", "sub-t"]),
         json!(["withLeeway", 0]), json!(["withLeeway", 60]), json!(["withAlgorithm", "HS256"]), json!(["withAlgorithm", "ES256"]),
         json!(["withRequiredClaim", "iss"]), json!(["withRequiredClaim", "x"]),
+        // names that other settings also talk about: a step must not touch them
+        json!(["withRequiredClaim", "exp"]), json!(["withRequiredClaim", "nbf"]), json!(["withRequiredClaim", "aud"]),
+        json!(["withRequiredClaim", "sub"]),
     ]
 }
 
@@ -68,6 +71,7 @@ fn named_field(step: &Value) -> &'static str {
 fn builder_sequence(ctx: &mut Ctx, start: &str, steps: &[Value]) -> Validation {
     ctx.report.evaluations += 1;
     let case = json!({"kind":"builders","start":start,"steps":steps});
+    real::set_current(&case);
     let mut v = if start == "default" { Validation::default() } else { Validation::new(alg_of(start)) };
     for s in steps {
         let before = policy_json(&v);
@@ -144,6 +148,7 @@ fn now() -> i64 {
 
 fn enforcement_case(ctx: &mut Ctx, start: &str, steps: &[Value], validate_nbf: bool, variant: &str) {
     ctx.report.evaluations += 1;
+    real::set_current(&json!({"kind":"enforce","start":start,"steps":steps,"validate_nbf":validate_nbf,"variant":variant}));
     let mut v = if start == "default" { Validation::default() } else { Validation::new(alg_of(start)) };
     for s in steps { v = apply(v, s); }
     v.validate_nbf = validate_nbf;
@@ -158,28 +163,29 @@ fn enforcement_case(ctx: &mut Ctx, start: &str, steps: &[Value], validate_nbf: b
     let mut sign_alg = v.algorithms.clone();
     let mut applicable = true;
     let mut expect = true;
+    let req = |c: &str| v.required_spec_claims.as_ref().map_or(false, |r| r.contains(c));
     match variant {
         "all-satisfied" => {}
         "exp-expired" => { p["exp"] = json!(t - lee - 5); expect = !v.validate_exp; }
         "exp-within-leeway" => { p["exp"] = json!(t - lee + 5); applicable = lee > 10; }
-        "exp-missing" => { p.as_object_mut().unwrap().remove("exp"); expect = !v.validate_exp; if v.required_spec_claims.as_ref().map_or(false, |r| r.contains("exp")) { expect = false; } }
+        "exp-missing" => { p.as_object_mut().unwrap().remove("exp"); expect = !v.validate_exp && !req("exp"); }
         "exp-string" => { p["exp"] = json!("soon"); expect = !v.validate_exp; }
         "nbf-future" => { p["nbf"] = json!(t + lee + 5); expect = !v.validate_nbf; }
         "nbf-within-leeway" => { p["nbf"] = json!(t + lee - 5); applicable = lee > 10; }
-        "nbf-missing" => { p.as_object_mut().unwrap().remove("nbf"); expect = !v.validate_nbf; }
+        "nbf-missing" => { p.as_object_mut().unwrap().remove("nbf"); expect = !v.validate_nbf && !req("nbf"); }
         "aud-wrong" => { p["aud"] = json!("someone-else"); expect = v.aud.is_none(); }
         "aud-array-disjoint" => { p["aud"] = json!(["x1", "x2"]); expect = v.aud.is_none(); }
         "aud-array-containing" => { applicable = v.aud.is_some(); if let Some(a) = &v.aud { p["aud"] = json!(["x1", a.iter().next().unwrap()]); } }
-        "aud-missing" => { p.as_object_mut().unwrap().remove("aud"); expect = v.aud.is_none(); }
+        "aud-missing" => { p.as_object_mut().unwrap().remove("aud"); expect = v.aud.is_none() && !req("aud"); }
         "aud-number" => { p["aud"] = json!(5); expect = v.aud.is_none(); }
         "iss-wrong" => { p["iss"] = json!("other-iss"); expect = v.iss.is_none(); }
-        "iss-missing" => { p.as_object_mut().unwrap().remove("iss"); expect = v.iss.is_none() && !v.required_spec_claims.as_ref().map_or(false, |r| r.contains("iss")); }
+        "iss-missing" => { p.as_object_mut().unwrap().remove("iss"); expect = v.iss.is_none() && !req("iss"); }
         "sub-wrong" => { p["sub"] = json!("other-sub"); expect = v.sub.is_none(); }
-        "sub-missing" => { p.as_object_mut().unwrap().remove("sub"); expect = v.sub.is_none(); }
+        "sub-missing" => { p.as_object_mut().unwrap().remove("sub"); expect = v.sub.is_none() && !req("sub"); }
         "required-missing" => {
             match &v.required_spec_claims {
-                Some(r) => { let c = r.iter().next().unwrap().clone(); p.as_object_mut().unwrap().remove(&c); expect = false; }
-                None => applicable = false,
+                Some(r) if !r.is_empty() => { let c = r.iter().next().unwrap().clone(); p.as_object_mut().unwrap().remove(&c); expect = false; }
+                _ => applicable = false,
             }
         }
         "other-alg" => { sign_alg = if keys::family(&v.algorithms) == 0 { if v.algorithms == Algorithm::HS384 { Algorithm::HS256 } else { Algorithm::HS384 } } else { Algorithm::HS256 }; expect = false; }
@@ -228,7 +234,7 @@ const VARIANTS: &[&str] = &[
 ];
 
 pub fn run(ctx: &mut Ctx, replay: Option<&Value>) {
-    ctx.report.rule = "all sequences of builder calls of length <= 3 (quick) / 4 (thorough) over a 13-step alphabet (without_expiry, with_audience x2, with_issuer x2, with_subject x2, with_leeway x2, with_algorithm x2, with_required_claim x2) from default() and new(PS384): frame condition after every step, final record compared field by field with the model; random longer sequences against a reordering that keeps the relative order per setting; for every policy reachable in <= 2 steps (and random longer ones) x validate_nbf in {false,true}: a token satisfying every constraint and tokens violating exactly one (19 variants, margins >= 5 s around now +- leeway) through decode / Holder::verify / Verifier::verify, compared with the model's decision; non-trivial = distinct sequence of >= 2 steps, or distinct (policy, variant)".to_string();
+    ctx.report.rule = "all sequences of builder calls of length <= 3 (quick) / 4 (thorough) over a 17-step alphabet (without_expiry, with_audience x2, with_issuer x2, with_subject x2, with_leeway x2, with_algorithm x2, with_required_claim x6: iss, x, exp, nbf, aud, sub) from default() and new(PS384): frame condition after every step, final record compared field by field with the model; random longer sequences against a reordering that keeps the relative order per setting; for every policy reachable in <= 2 steps (and random longer ones) x validate_nbf in {false,true}: a token satisfying every constraint and tokens violating exactly one (19 variants, margins >= 5 s around now +- leeway) through decode / Holder::verify / Verifier::verify, compared with the model's decision; non-trivial = distinct sequence of >= 2 steps, or distinct (policy, variant)".to_string();
     if let Some(case) = replay {
         let steps: Vec<Value> = case["steps"].as_array().cloned().unwrap_or_default();
         let start = case["start"].as_str().unwrap_or("default");
